@@ -3,6 +3,7 @@ package props
 import (
 	"encoding/json"
 	"fmt"
+	"os"
 
 	"verif.local/harness/core"
 	"verif.local/harness/model"
@@ -35,6 +36,14 @@ func (C06) Info() core.Info {
 }
 
 func (C06) Gen(r *simrt.RNG, tier string) core.Case {
+	// the union of all generators: now and then borrow another property's world
+	if r.Chance(1, 3) || os.Getenv("VERIF_C06_BORROW") != "" {
+		gens := []core.Property{C09{}, C13{}, C07{}, C16{}, C10{}, C05{}, C03{}, C04{}, C02{}}
+		if os.Getenv("VERIF_C06_BORROW") == "C09" {
+			return C09{}.Gen(r, tier)
+		}
+		return gens[r.Intn(len(gens))].Gen(r, tier)
+	}
 	cfg := world.SwarmCfg(r)
 	cfg.RepeatPos = r.Chance(1, 4)
 	var w world.World
